@@ -593,4 +593,8 @@ func (w c06Walked) count(typ byte) int {
 
 func c06Hex(b []byte) string { return fmt.Sprintf("%x", b) }
 
-func c06Join(ss []string) string { s := append([]string{}, ss...); sort.Strings(s); return strings.Join(s, ",") }
+func c06Join(ss []string) string {
+	s := append([]string{}, ss...)
+	sort.Strings(s)
+	return strings.Join(s, ",")
+}
